@@ -186,6 +186,20 @@ Definition dec_step (k : dkind) : bool -> nat -> nat -> list entry -> dstate -> 
   | DJsonArr => jsonarr_step
   end.
 
+(* A decoder driven directly (no provider around it): Scan is called until it returns an error;
+   what it produced and that error.  [None]: the fuel ran out first (a decoder without bounds). *)
+Fixpoint dec_run (k : dkind) (lim pas : nat) (es : list entry) (fuel : nat) (d : dstate)
+  : list entry * option err :=
+  match fuel with
+  | 0 => ([], None)
+  | S f =>
+      match dec_step k false lim pas es d with
+      | DAgain d' => dec_run k lim pas es f d'
+      | DAmmo e d' => let '(l, r) := dec_run k lim pas es f d' in (e :: l, r)
+      | DErr e => ([], Some e)
+      end
+  end.
+
 (* ------------------------------------------------------------------------------------ *)
 (* components/providers/http/provider/provider.go *)
 
@@ -429,6 +443,21 @@ Definition spec_b (lim pas : nat) (es : list entry) (cancel : option nat) (order
       else (m <=? k) && (k <=? b) && (k <=? m + slack) && is_rok_or_canceled rc
   | Some m, None => (m <=? k) && (k <=? m + slack) && is_rok_or_canceled rc
   end
+  end.
+
+(* a decoder driven directly, [max] = how many items the harness takes at most: the cyclic prefix
+   of length min(bound, max) in order; with a bound below max the decoder then reports one of its
+   two sentinels ([sentinel]), without a bound it is still producing *)
+Definition spec_dec (lim pas : nat) (es : list entry) (max : nat) (obs : list nat) (sentinel ended : bool) : bool :=
+  let n := length es in
+  match es with
+  | [] => (length obs =? 0) && ended
+  | _ =>
+    list_eqb obs (ids (cyc_prefix es (length obs))) &&
+    match bound lim pas n with
+    | Some b => if b <? max then (length obs =? b) && sentinel else (length obs =? max) && negb ended
+    | None => (length obs =? max) && negb ended
+    end
   end.
 
 (* The provider under the engine, the engine's context cancelled inside shot number [m] (0: before
